@@ -7,6 +7,10 @@ Real classes (every Message subclass, by introspection):
    str, list, dict) through the constructor (= from_dict / from_json path) and from_urlencoded;
  * truth tables of the cross-parameter rules of oidc.AuthorizationRequest (also run through the model),
    RegistrationRequest / RegistrationResponse and IdToken;
+ * oidc.AuthorizationResponse with a real signed ID Token: the full truth table of the two hash rules (code x
+   access_token x c_hash right / wrong / absent / wrong width x at_hash likewise x signing algorithm x the four
+   construction paths), also through the model (Model/MsgRules.v oidc_authzresp_verify_idt); the token response
+   (no hash rule);
  * embedded signed objects (id_token, request, logout_token): valid, tampered, wrong key, alg none, bare
    JSON; the same wrapped in a JWE to the verifier's own encryption key (anybody can build one); with and
    without the allowed_sign_alg keyword; BackChannelLogoutRequest also against Model/MsgCheck.v bclogout_verify;
@@ -30,7 +34,11 @@ RULE = ("every Message subclass (introspection): base message of its required pa
         "(each required parameter removed, set to '', [], [''], None, 0; each enumerated parameter outside its set) "
         "against Message.verify and the class's verify(); typed-slot matrix = every declared parameter x 14 foreign "
         "values of every JSON type via constructor and from_urlencoded; full truth table (810 rows) of the "
-        "oidc.AuthorizationRequest rules, tables for RegistrationRequest/Response and IdToken; signed-object "
+        "oidc.AuthorizationRequest rules, tables for RegistrationRequest/Response and IdToken; oidc.AuthorizationResponse "
+        "with a signed, otherwise valid ID Token: {code, no code} x {access_token, none} x c_hash {right, of another code, "
+        "absent, right value under another hash width} x at_hash likewise x {RS256, RS384, RS512, ES256, HS256} x "
+        "{constructor, from_dict, from_json, from_urlencoded} (1280 rows) + rows where another rule fails as well + "
+        "oidc.AccessTokenResponse (no hash rule), oracle = hashlib left hash of what the accepted response carries; signed-object "
         "matrix (valid / tampered / wrong key / alg none / bare JSON, each also encrypted as a JWE to the verifier's own "
         "published encryption key, with and without the allowed_sign_alg keyword) for id_token, request, logout_token; "
         "request-object matrix "
@@ -40,7 +48,9 @@ RULE = ("every Message subclass (introspection): base message of its required pa
         "stands after verify(). A case is one (class, parameter, fault) cell; non-trivial when the class accepted "
         "the unfaulted message")
 ASSUMPTIONS = ["cryptojwt JWS verification is correct (exercised: tampered and foreign-key tokens)",
-               "JSON floats are outside the Gallina value universe: the float row of the type matrix is oracle-only"]
+               "JSON floats are outside the Gallina value universe: the float row of the type matrix is oracle-only",
+               "the left-half hash of at_hash / c_hash is an environment function of the model: a finite table computed "
+               "with hashlib for the values of the run (the oracle recomputes it with hashlib as well, never with the library)"]
 
 IMP = ["Lib.Base", "Lib.PyStr", "Lib.MsgSchema", "Model.Msg", "Model.MsgRules", "Model.MsgCheck"]
 EMPTY = (None, "", [], {}, [""])
@@ -77,7 +87,7 @@ class Run:
         self.rng = ctx.rng
         self.classes = C.discover()
         self.byname = dict(self.classes)
-        self.cases = {"verify": [], "construct": [], "authz": [], "rules": [], "request": [], "bclogout": []}
+        self.cases = {"verify": [], "construct": [], "authz": [], "rules": [], "request": [], "bclogout": [], "authzresp_idt": []}
         self.kj = build_keyjar([{"type": "RSA", "use": ["sig"]}, {"type": "EC", "crv": "P-256", "use": ["sig"]}])
         self.kj.import_jwks(self.kj.export_jwks(private=True), "https://op.example")
         self.kj.import_jwks(self.kj.export_jwks(private=True), "c")
@@ -891,6 +901,248 @@ class Run:
                 args["ui_locales"] = loc
             self.rule_case("endsession", O + "session.EndSessionRequest", args, {}, o_end)
 
+    # ------------------------------------------------------------ C3. code <-> c_hash, access_token <-> at_hash
+    HASH_ISS = "https://op.example"
+    AZR = "idpyoidc.message.oidc.AuthorizationResponse"
+    ATR = "idpyoidc.message.oidc.AccessTokenResponse"
+    IDT = "idpyoidc.message.oidc.IdToken"
+    HASH_ALGS = (("RS256", "RSA"), ("RS384", "RSA"), ("RS512", "RSA"), ("ES256", "EC"), ("HS256", "oct"))
+
+    @staticmethod
+    def ref_left_hash(value, bits):
+        """the reference (OIDC Core 3.3.2.11 / 3.2.2.9): base64url without padding of the left-most half of the
+        SHA-<bits> hash of the ASCII text.  hashlib only, never the library's left_hash"""
+        import base64
+        import hashlib
+        h = hashlib.new("sha" + bits, value.encode("ascii")).digest()
+        return base64.urlsafe_b64encode(h[:len(h) // 2]).decode("ascii").rstrip("=")
+
+    @staticmethod
+    def jwt_parts(txt):
+        """(header, claims) of a compact JWS, decoded here (base64 + json only)"""
+        import base64
+        h, p = txt.split(".")[:2]
+        dec = lambda x: json.loads(base64.urlsafe_b64decode(x + "=" * (-len(x) % 4)))   # noqa
+        return dec(h), dec(p)
+
+    def hash_oracle(self, cname, m, kw, rec):
+        """the property text, on the message as it stands after an accepting verify() of an oidc authorization
+        response that carries a SIGNED ID Token: a code in the response is bound to the token by c_hash, an
+        access token by at_hash - each on its own, whatever else the response carries.  Reads the response and
+        the token's own header / claims; knows nothing of how the row was generated."""
+        d = m._dict
+        tok = d.get("id_token")
+        if not isinstance(tok, str):
+            return
+        hdr, claims = self.jwt_parts(tok)
+        alg = hdr.get("alg", "")
+        if alg == "none" or alg[-3:] not in ("256", "384", "512"):
+            return
+        for param, claim, key in (("code", "c_hash", "c_hash"), ("access_token", "at_hash", "at_hash")):
+            if param not in d:
+                continue
+            want = self.ref_left_hash(d[param], alg[-3:])
+            if claims.get(claim) != want:
+                self.ctx.violation("rules:%s:%s" % (cname.split(".")[-1], key),
+                                   "verify(%s) of %s accepted a response with %s=%r and an ID Token (alg %s) whose %s is %r; "
+                                   "the left hash of the %s is %r"
+                                   % (", ".join(sorted(kw)), cname, param, d[param], alg, claim, claims.get(claim), param, want), rec)
+
+    def idt_response_case(self, cname, path, args, kw, jar, hash_tbl, rec, inject=None, conforming=None):
+        """one response with a signed ID Token: build it along `path`, run the real verify(keyjar=jar, **kw), apply the
+        hash oracle (authorization response), hand the row to the model (Model/MsgRules.v oidc_authzresp_verify_idt /
+        oidc_tokenresp_verify_idt through Model/MsgCheck.v chk_authzresp_idt).  `hash_tbl`: the Gallina name of the
+        hash table (defined in self.idt_prelude)"""
+        from urllib.parse import urlencode
+        ctx = self.ctx
+        cls = self.byname[cname]
+        is_authz = cname == self.AZR
+        build = {"constructor": lambda: cls(**copy.deepcopy(args)),
+                 "from_dict": lambda: cls().from_dict(copy.deepcopy(args)),
+                 "from_json": lambda: cls().from_json(json.dumps(args)),
+                 "from_urlencoded": lambda: cls().from_urlencoded(cls(**copy.deepcopy(args)).to_urlencoded())}[path]
+        b = attempt(build)
+        rec = dict(rec, **{"class": cname, "path": path, "args": canon(args), "verify_kwargs": canon(kw), "inject": canon(inject)})
+        if b[0] == "exc":
+            ctx.count("idt-hash:not-constructible:" + path)
+            return
+        m = b[1]
+        for k, v in (inject or {}).items():
+            m._dict[k] = copy.deepcopy(v)
+        before = canon(dict(m._dict))
+        try:
+            r = m.verify(keyjar=jar, **copy.deepcopy(kw))
+            out = ("ok", r is not False)
+        except Exception as e:   # noqa
+            out = ("exc", type(e).__name__)
+        accepted = out == ("ok", True)
+        tag = "authz" if is_authz else "token"
+        ctx.case_seen(rec, accepted)
+        ctx.count("idt-hash:%s:%s" % (tag, "accepted" if accepted else ("returned-False" if out[0] == "ok" else "refused:" + out[1])))
+        if accepted:
+            if is_authz:
+                self.hash_oracle(cname, m, kw, rec)
+            self.schema_oracle(cname, cls, m, rec, "verify()")
+            vt = m._dict.get("__verified_id_token")
+            if "id_token" in m._dict and isinstance(m._dict["id_token"], str):
+                # what is stored as the verified token is what was signed
+                _, claims = self.jwt_parts(m._dict["id_token"])
+                got = canon(vt)["d"] if vt is not None and hasattr(vt, "_dict") else None
+                norm = lambda d: None if d is None else {k: ([v] if k == "aud" and isinstance(v, str) else v) for k, v in d.items()}  # noqa
+                if norm(got) != norm(claims):
+                    ctx.violation("id-token:verified-content", "verify() of %s stores %r as the verified ID Token, the signed "
+                                  "token says %r" % (cname, got, claims), rec)
+        elif conforming:
+            ctx.count("idt-hash:refused-a-conforming-response")
+            ctx.notes.append("idt-hash: a conforming response was refused (%s): %r" % (out[1], rec.get("row")))
+        # ---- the model
+        after = canon(dict(m._dict))
+        tok = args.get("id_token")
+        if not (pure_json(before) and pure_json(kw)):
+            ctx.unmodelled += 1
+            return
+        if out[0] == "exc" and out[1] not in C.EXC:
+            ctx.count("skipped-model:exception-class:" + out[1])
+            return
+        if isinstance(tok, str):
+            hdr, claims = self.jwt_parts(tok)
+            if not pure_json(claims):
+                ctx.unmodelled += 1
+                return
+            tok_term = "(TJws SigValid %s %s)" % (coq_str(hdr["alg"]), coq_msg(claims))
+            names = {claims.get("iss"), kw.get("iss"), self.HASH_ISS, "c"}
+            issuers = sorted(i for i in names if isinstance(i, str) and i in jar)
+        else:
+            tok_term, issuers = "TJunk", []
+        # the model never reads the compact serialisation (the token's content is handed over symbolically): in
+        # the model's copy of the message the text is abbreviated to its fingerprint (a 700-character literal in
+        # each of 1000 case terms is what costs time in coqc); distinct texts keep distinct names
+        def short(d):
+            import hashlib
+            v = d.get("id_token")
+            return dict(d, id_token="jws:" + hashlib.sha256(v.encode()).hexdigest()[:24]) if isinstance(v, str) else d
+        inp = "(%s, %s, %s, %s, %s, %s, %s, %s, %s)" % (
+            E.coq_bool(is_authz), coq_str(cname), coq_str(self.IDT), E.coq_z(self.NOW), coq_msg(kw),
+            coq_list([coq_str(i) for i in issuers], "pystr"), hash_tbl, tok_term, coq_msg(short(before)))
+        res = "(Ok (%s, %s))" % (E.coq_bool(out[1]), self.coq_msg_obj(short(after))) if out[0] == "ok" else "(Err %s)" % C.EXC[out[1]]
+        term = "(%s, %s)" % (inp, res)
+        if term in self._idt_terms:        # the four construction paths give the same message: one model case
+            ctx.count("idt-hash:model-case-shared-between-paths")
+            return
+        self._idt_terms.add(term)
+        self.cases["authzresp_idt"].append((term, inp, rec))
+
+    def hash_tables(self):
+        """oidc.AuthorizationResponse.verify: the FULL truth table of the two hash rules
+             code present / absent  x  access_token present / absent
+             x  c_hash  right / of another code / absent / right value under the wrong hash width
+             x  at_hash likewise
+             x  signing algorithm of the ID Token (the hash width follows it)
+             x  construction path (constructor, from_dict, from_json, from_urlencoded of the serialised response)
+           with real signed ID Tokens that are otherwise valid (issuer known to the key jar, audience, times);
+           rows where another ID Token rule fails as well (order of the checks), the keywords, the `aud` extra, a
+           stale marker; oidc.AccessTokenResponse.verify (no hash rule: accepted whatever the hashes say)."""
+        self.set_clock(True)
+        try:
+            self._hash_tables()
+        finally:
+            self.set_clock(False)
+
+    def _hash_tables(self):
+        from idpyoidc.message.oidc import IdToken
+        ctx, rng = self.ctx, self.rng
+        NOW, iss = self.NOW, self.HASH_ISS
+        self._idt_terms = set()
+        # HS*: the issuer's symmetric key lives in a key jar of its own (the shared one stays asymmetric-only)
+        kj_sym = self.kj.copy()
+        kj_sym.add_symmetric(iss, "".join(rng.choice("abcdefghijklmnopqrstuvwxyz0123456789") for _ in range(48)), ["sig"])
+        alphabet = "ABCDEFGHIJKLMNOPQRSTUVWXYZabcdefghijklmnopqrstuvwxyz0123456789-._~+/="
+        word = lambda n: "".join(rng.choice(alphabet) for _ in range(n))   # noqa
+        code, code2, atok, atok2 = "c" + word(22), "c" + word(22), "t" + word(30), "t" + word(30)
+        # the hash function is environment of the model: a finite table (bits, value, digest) computed with hashlib,
+        # defined once in front of every case file
+        rows = [(b_, v, self.ref_left_hash(v, b_)) for b_ in ("256", "384", "512") for v in (code, code2, atok, atok2)]
+        self.idt_prelude = "Definition idt_hash_tbl : list (pystr * pystr * pystr) := %s.\n" % coq_list(
+            ["(%s, %s, %s)" % (coq_str(b_), coq_str(v), coq_str(dg)) for b_, v, dg in rows], "(pystr * pystr * pystr)")
+        tbl = "idt_hash_tbl"
+
+        def claim_value(variant, value, other, bits):
+            return {"right": lambda: self.ref_left_hash(value, bits), "wrong": lambda: self.ref_left_hash(other, bits),
+                    "absent": lambda: None,
+                    "other-bits": lambda: self.ref_left_hash(value, "512" if bits == "256" else "256")}[variant]()
+
+        def token(alg, kt, cv, av, **over):
+            jar = kj_sym if kt == "oct" else self.kj
+            claims = {"iss": iss, "sub": "s", "aud": ["c"], "exp": NOW + 600, "iat": NOW}
+            ch, ah = claim_value(cv, code, code2, alg[-3:]), claim_value(av, atok, atok2, alg[-3:])
+            if ch is not None:
+                claims["c_hash"] = ch
+            if ah is not None:
+                claims["at_hash"] = ah
+            claims.update(over)
+            claims = {k: v for k, v in claims.items() if v is not None}
+            return jar, IdToken(**claims).to_jwt(key=jar.get_signing_key(kt, iss), algorithm=alg)
+
+        def response(with_code, with_token, jwt, **extra):
+            args = {"state": "st"}
+            if with_code:
+                args["code"] = code
+            if with_token:
+                args.update(access_token=atok, token_type="Bearer")
+            if jwt is not None:
+                args["id_token"] = jwt
+            args.update(extra)
+            return args
+        VARIANTS = ("right", "wrong", "absent", "other-bits")
+        PATHS = ("constructor", "from_dict", "from_json", "from_urlencoded")
+        kw0 = {"iss": iss, "client_id": "c"}
+        # ---- the full truth table
+        for alg, kt in self.HASH_ALGS:
+            for cv, av in itertools.product(VARIANTS, VARIANTS):
+                jar, jwt = token(alg, kt, cv, av)
+                for with_code, with_token in itertools.product((True, False), (True, False)):
+                    conforming = (cv == "right" or not with_code) and (av == "right" or not with_token)
+                    for path in PATHS:
+                        row = {"alg": alg, "code": with_code, "access_token": with_token, "c_hash": cv, "at_hash": av}
+                        self.idt_response_case(self.AZR, path, response(with_code, with_token, jwt), kw0, jar, tbl,
+                                               {"row": row}, conforming=conforming)
+        # ---- order of the checks: another rule of the ID Token (or of the response) fails as well
+        others = [("token-iss-other-known", {"iss": "c"}, {}, {}, None), ("token-iss-unknown", {"iss": "https://unknown.example"}, {}, {}, None),
+                  ("token-expired", {"exp": NOW - 600}, {}, {}, None), ("token-aud-other", {"aud": ["d"]}, {}, {}, None),
+                  ("token-aud-two-no-azp", {"aud": ["c", "d"]}, {}, {}, None),
+                  ("token-nonce-other", {"nonce": "n"}, {"nonce": "m"}, {}, None), ("token-nonce-right", {"nonce": "n"}, {"nonce": "n"}, {}, None),
+                  ("kw-skew", {"exp": NOW - 10}, {"skew": 100}, {}, None),
+                  ("kw-allowed-alg-same", {}, {"allowed_sign_alg": "RS256"}, {}, None),
+                  ("kw-allowed-alg-other", {}, {"allowed_sign_alg": "ES256"}, {}, None),
+                  ("kw-no-iss-no-client", {}, None, {}, None),
+                  ("response-iss-other", {}, {}, {"iss": "https://other.example"}, None),
+                  ("response-iss-same", {}, {}, {"iss": iss}, None),
+                  ("response-client-other", {}, {}, {"client_id": "d"}, None),
+                  ("response-aud-not-me", {}, {}, {"aud": ["d", "e"]}, None), ("response-aud-me", {}, {}, {"aud": ["d", "c"]}, None),
+                  ("response-error-description-bad", {}, {}, {"error_description": "bad:1"}, None),
+                  ("stale-marker", {}, {}, {}, {"__verified_id_token": "stale"})]
+        for tag, over, kwx, extra, inject in others:
+            for cv, av in (("right", "right"), ("wrong", "right"), ("right", "wrong"), ("absent", "absent")):
+                jar, jwt = token("RS256", "RSA", cv, av, **over)
+                kw = {} if kwx is None else dict(kw0, **kwx)
+                for path in ("constructor", "from_json"):
+                    self.idt_response_case(self.AZR, path, response(True, True, jwt, **extra), kw, jar, tbl,
+                                           {"row": {"other": tag, "c_hash": cv, "at_hash": av}}, inject=inject)
+        # a response without any ID Token: nothing to bind
+        for with_code, with_token in itertools.product((True, False), (True, False)):
+            for path in PATHS:
+                self.idt_response_case(self.AZR, path, response(with_code, with_token, None), kw0, self.kj, tbl,
+                                       {"row": {"id_token": None, "code": with_code, "access_token": with_token}})
+        # ---- the token response: verify_id_token without check_hash - no hash rule applies
+        for alg, kt in (("RS256", "RSA"), ("ES256", "EC")):
+            for cv, av in itertools.product(("absent", "right", "wrong"), ("right", "wrong", "absent")):
+                jar, jwt = token(alg, kt, cv, av)
+                for with_code in (False, True):          # `code` is an extra of the token response
+                    for path in PATHS:
+                        args = response(with_code, True, jwt)
+                        self.idt_response_case(self.ATR, path, args, kw0, jar, tbl,
+                                               {"row": {"alg": alg, "code-extra": with_code, "c_hash": cv, "at_hash": av}}, conforming=True)
+
     # ------------------------------------------------------------ D. embedded signed objects
     def token_variants(self, payload_msg, signer_iss):
         """[(tag, token, genuine?)]: a signed object and its forgeries"""
@@ -1139,12 +1391,16 @@ class Run:
                                   ("authz", "pystr * option pystr * msg * res msg", "chk_authz", "m_authz"),
                                   ("rules", "rules_case * res (bool * msg)", "chk_rules", "m_rules"),
                                   ("request", "request_case * res msg", "chk_request", "m_request"),
-                                  ("bclogout", "bclogout_case * res msg", "chk_bclogout", "m_bclogout")):
+                                  ("bclogout", "bclogout_case * res msg", "chk_bclogout", "m_bclogout"),
+                                  ("authzresp_idt", "idt_resp_case * res (bool * msg)", "chk_authzresp_idt", "m_authzresp_idt")):
             cs = self.cases[kind]
             cap = (1200 if kind != "rules" else 4000) if ctx.quick else 10 ** 9
             if len(cs) > cap:
                 cs = self.rng.sample(cs, cap)
             ctx.count("model-cases:" + kind, len(cs))
+            if kind == "authzresp_idt":
+                C.check_cases(ctx, IMP, ty, chk, fn, cs, kind, shard=60, prelude=getattr(self, "idt_prelude", ""))
+                continue
             C.check_cases(ctx, IMP, ty, chk, fn, cs, kind)
 
 
@@ -1158,6 +1414,7 @@ def run(ctx):
     r.rules_tables()
     r.signed_objects()
     r.request_objects()
+    r.hash_tables()
     r.run_model()
     ctx.count("classes-whose-verify-accepted-the-base-message", len(r.accepting))
 
